@@ -22,7 +22,64 @@ func sna32All(a, b uint32) sna32Result {
 	return sna32Result{sna32LT(a, b), sna32LTE(a, b), sna32GT(a, b), sna32GTE(a, b), sna32EQ(a, b)}
 }
 
+// c16LongSkips: the read cursor of an ordered DATA stream is moved forward by skips (FORWARD-TSN)
+// while a complete message the application has not read yet stays queued.  However far the
+// cursor moves - up to just under 2^15 stream sequence numbers past the queued message -
+// the queued message and whatever arrives at the cursor afterwards are delivered, in that order.
+// The distances stop at 2^15-1: the property speaks of values less than half the number space
+// apart, and a queued message 2^15 or more behind the cursor is outside it (the bug-hunting
+// agent's reports C16-1/C16-2 are of that kind and are recorded in DESIGN 9a as out of domain).
+func c16LongSkips(j *Job) {
+	if !j.mine(5) {
+		return
+	}
+	mk := func(ssn uint16, tsn uint32, data string) *chunkPayloadData {
+		return &chunkPayloadData{streamIdentifier: 1, streamSequenceNumber: ssn, tsn: tsn, beginningFragment: true, endingFragment: true, userData: []byte(data), payloadType: 53}
+	}
+	for _, base := range []uint16{0, 40000, 65530} {
+		for _, dist := range []uint32{100, 20000, 32765, 32766} {
+			for _, step := range []uint32{1500, 40000} {
+				caseName := fmt.Sprintf("long-skips/base%d/dist%d/step%d", base, dist, step)
+				j.Stats.Cases++
+				j.Stats.Execs++
+				r := newReassemblyQueue(1, 0)
+				r.nextSSN = base
+				if _, err := r.pushWithError(mk(base, 1000, "first")); err != nil {
+					j.failSeq("skip.unread", caseName, "push of the first message failed: "+err.Error(), nil)
+					continue
+				}
+				// the sender abandons everything up to base+dist, announced in steps
+				for off := uint32(0); off < dist; {
+					off += step
+					if off > dist {
+						off = dist
+					}
+					r.forwardTSNForOrdered(base + uint16(off))
+				}
+				next := base + uint16(dist) + 1
+				if _, err := r.pushWithError(mk(next, 1000+dist+1, "later")); err != nil {
+					j.failSeq("skip.unread", caseName, "push of the message at the cursor failed: "+err.Error(), nil)
+					continue
+				}
+				var got []string
+				buf := make([]byte, 64)
+				for k := 0; k < 3; k++ {
+					n, _, err := r.read(buf)
+					if err != nil {
+						break
+					}
+					got = append(got, string(buf[:n]))
+				}
+				if len(got) != 2 || got[0] != "first" || got[1] != "later" {
+					j.failSeq("skip.unread", caseName, fmt.Sprintf("a complete unread message (SSN %d) stayed queued while skips moved the cursor %d sequence numbers ahead (in steps of %d); then the message at the cursor (SSN %d) arrived: the reader gets %q, expected [first later]", base, dist, step, next, got), nil)
+				}
+			}
+		}
+	}
+}
+
 func propC16(j *Job) {
+	c16LongSkips(j)
 	c16Algebra16(j)
 	c16Algebra32(j)
 	c16Sorts(j)
